@@ -230,6 +230,23 @@ impl Scenario for C17Corrupt {
                 cases.push(Case { c: Corruption::Truncate { at }, file: f.chance(1, 2), ts: false });
             }
         }
+        // truncation inside module headers: right after an identifier of the header, the EXPORTS
+        // or the IMPORTS lists, and at random strict positions of it
+        for _ in 0..4 {
+            let hdr: Vec<&Unit> = units.iter().filter(|u| u.kind == "header" && u.end > u.start + 4).collect();
+            if hdr.is_empty() {
+                break;
+            }
+            let u = f.pick(&hdr);
+            let ends: Vec<usize> = (u.start + 1..u.end).filter(|i| {
+                let b = text.as_bytes();
+                (b[*i - 1].is_ascii_alphanumeric()) && !(b[*i].is_ascii_alphanumeric() || b[*i] == b'-')
+            }).collect();
+            let at = if !ends.is_empty() && f.chance(2, 3) { *f.pick(&ends) } else { u.start + 1 + f.below(u.end - u.start - 1) };
+            if text.is_char_boundary(at) {
+                cases.push(Case { c: Corruption::TruncateAtBoundary { at }, file: f.chance(1, 2), ts: false });
+            }
+        }
         // truncation exactly at unit boundaries: after a complete assignment, after its line break,
         // in front of the next assignment's first token
         for _ in 0..6 {
@@ -320,7 +337,14 @@ impl Scenario for C17Corrupt {
                 continue;
             }
             let Some(r) = &res.report else {
-                // Ok, or an Err of another kind: not judged here
+                if res.err_kind.as_deref() == Some("lexer-eof") {
+                    // a syntax failure without any position (NotEnoughData): the property demands a
+                    // reported offset/line for every parsing failure; never seen on the unchanged
+                    // tree in 380 000 corruptions per run
+                    out.violate("syntax-error-has-position", format!("parsing failed without a position ({}) on corruption {:?} delivered as {}", res.err.clone().unwrap_or_default(), case.c, if case.file { "file" } else { "literal" }));
+                    continue;
+                }
+                // Ok, or an Err of another kind (IO): not judged here
                 out.count(if res.ok { "not_judged.result_ok" } else { "not_judged.other_error_kind" }, 1);
                 continue;
             };
@@ -370,6 +394,16 @@ impl Scenario for C17Corrupt {
                     if flagged.is_none() {
                         out.count("probe.no_line_flagged_by_contextualize", 1);
                     }
+                    // the row that carries the marker shows the text of that very line
+                    if let Some(row) = rend.contextualized.lines().find(|l| l.contains("FAILED AT THIS LINE")) {
+                        let shown = row.split_once("│  ").map(|(_, r)| r).unwrap_or("");
+                        let shown = shown.split(" ◀").next().unwrap_or("").trim_end();
+                        let actual = ctext.split('\n').nth(r.line.saturating_sub(1)).unwrap_or("").trim_end();
+                        // (the excerpt may start or end in the middle of a line: a part of the line is fine)
+                        if shown.is_empty() || !actual.contains(shown) {
+                            out.violate("renderings-agree", format!("the row marked by contextualize shows `{}` but line {} of the input is `{}`; {ctx}", crate::core::truncate(shown, 120), r.line, crate::core::truncate(actual, 120)));
+                        }
+                    }
                     // 5. path reporting
                     if case.file {
                         let want = path.clone();
@@ -409,5 +443,23 @@ impl Scenario for C17Corrupt {
             }
         }
         out
+    }
+}
+
+/// debugging aid: print the corrupted text (numbered) and the renderings for the first case of a replay file
+pub fn show(path: &str) {
+    let doc: Value = serde_json::from_slice(&std::fs::read(path).unwrap()).unwrap();
+    let p = parse_plan(&doc["plan"]);
+    let (text, _units) = layout(&p.set);
+    let case = &p.cases[0];
+    let ctext = String::from_utf8(apply(&case.c, &text)).unwrap();
+    for (i, l) in ctext.split('\n').enumerate() {
+        println!("{:4} | {}", i + 1, l.replace('\r', "<CR>").replace('\0', "<0>"));
+    }
+    crate::sut::install_panic_hook();
+    let (out, rend) = sut::compile_for_report(&BackendSel::Rasn(RasnCfg::default_cfg()), &[Src::Literal(ctext.clone())], &ctext);
+    println!("{:?}", out.report);
+    if let Some(r) = rend {
+        println!("{}\n{}", r.display, r.contextualized);
     }
 }
